@@ -55,7 +55,11 @@ func runC06(s *kernel.Sim) {
 	// engine's own goroutines (processing loop, TTL watcher, removal) too, so that
 	// e.g. a TTL can elapse in the middle of one quota check of the loop; 5 also
 	// picks settings in which requests outlive their TTL in a closed quota window
-	profile := tp.Choose(6)
+	// 6: a scripted opening - the quota of the window is spent, one request waits, the
+	// loop takes it off the queue and is held before it asks the quota, a second
+	// request of the same priority arrives and enters the queue, the loop goes on
+	// (refused: the first one is put back); from there on as in profile 4
+	profile := tp.Choose(7)
 	bgYield := profile >= 4
 	qMax := int64(tp.Range(1, 2))
 	qWin := tp.Range(1, 5)
@@ -65,8 +69,15 @@ func runC06(s *kernel.Sim) {
 		qMax, ttlS = 1, tp.Range(1, 2)
 		qWin = ttlS + tp.Range(2, 3)
 	}
+	if profile == 6 {
+		qMax, qWin, qSize = 1, tp.Range(2, 3), int64(tp.Range(3, 4))
+		ttlS = qWin + tp.Range(1, 3)
+	}
 	usePrio := tp.Chance(2, 3)
 	nArr := tp.Range(2, 10)
+	if profile == 6 && nArr < 4 {
+		nArr = 4
+	}
 	cancelAt := -1
 	if tp.Chance(1, 4) {
 		cancelAt = tp.Range(3, 40)
@@ -118,6 +129,7 @@ func runC06(s *kernel.Sim) {
 	var cancelT time.Duration
 	drainSeq := uint64(0)
 	nExpiredEv := 0
+	var placedHeld *c06req // the request the loop held when an arrival was placed
 	s.OnEvent = func(kind string, a []string) {
 		if kind == "queue.drain" {
 			drainSeq = s.Seq()
@@ -166,6 +178,10 @@ func runC06(s *kernel.Sim) {
 		switch kind {
 		case "queue.skipped":
 			r.skipSeq = s.Seq()
+			if r == placedHeld {
+				s.Probe("held_request_put_back_after_a_placed_arrival")
+				placedHeld = nil
+			}
 		case "queue.enqueued":
 			r.enq, r.enqSeq = true, s.Seq()
 		case "queue.refused":
@@ -200,11 +216,17 @@ func runC06(s *kernel.Sim) {
 		}
 	}
 	prios := []string{"p1", "p2", "p3", ""}
+	var like *c06req       // when set, the next arrival has the priority of this request
 	startArrival := func() {
 		i := len(order)
 		r := &c06req{id: fmt.Sprintf("r%d", i)}
 		h := map[string]string{}
-		if usePrio {
+		if usePrio && like != nil {
+			r.prio = like.prio
+			if like.prio >= 1 && like.prio <= 3 {
+				h["x-prio"] = prios[like.prio-1]
+			}
+		} else if usePrio {
 			g := tp.Choose(len(prios))
 			if prios[g] != "" {
 				h["x-prio"] = prios[g]
@@ -273,6 +295,71 @@ func runC06(s *kernel.Sim) {
 	maxSteps := 70
 	if bgYield {
 		maxSteps = 160
+	}
+	if profile == 6 {
+		runTask := func(r *c06req, until func() bool) {
+			for i := 0; i < 80 && !until() && r.task != nil && !r.task.Done(); i++ {
+				s.Resume(r.task)
+			}
+		}
+		freeBG := func() {
+			for i := 0; i < 400; i++ {
+				var bg *kernel.Task
+				for _, t := range s.ParkedTasks() {
+					if !t.Harness {
+						bg = t
+					}
+				}
+				if bg == nil {
+					return
+				}
+				s.Resume(bg)
+			}
+		}
+		// the window's only slot goes to a first request
+		startArrival()
+		a := order[0]
+		runTask(a, func() bool { return a.pushed })
+		for k := 0; k < 3 && !a.granted; k++ {
+			advancing = true
+			s.Sleep(tick)
+			advancing = false
+			freeBG()
+		}
+		runTask(a, func() bool { return a.done })
+		// a second one has to wait
+		s.Sleep(time.Microsecond)
+		startArrival()
+		x := order[1]
+		runTask(x, func() bool { return x.pushed })
+		// the loop takes it off the queue on its next tick and is held there
+		forceBG = true
+		now := s.Now()
+		s.SleepUntil((now/tick + 1) * tick)
+		for i := 0; i < 60 && x.inHeap; i++ {
+			var loop *kernel.Task
+			for _, t := range s.ParkedTasks() {
+				if !t.Harness && strings.HasSuffix(t.Origin, ".process") {
+					loop = t
+				}
+			}
+			if loop == nil {
+				break
+			}
+			s.Resume(loop)
+		}
+		if x.pushed && !x.inHeap && !x.granted && !x.expired {
+			// a third request of the same priority arrives and enters the queue
+			like = x
+			s.Sleep(time.Microsecond)
+			startArrival()
+			like = nil
+			y := order[2]
+			runTask(y, func() bool { return y.pushed })
+			s.Probe("arrival_while_loop_holds_the_only_waiting_request")
+		}
+		forceBG = false
+		freeBG()
 	}
 	for step := 0; step < maxSteps && !s.Failed(); step++ {
 		placeNow := false
@@ -452,6 +539,10 @@ func runC06(s *kernel.Sim) {
 					break
 				}
 			}
+			placeHold := bgYield && tp.Chance(1, 2)
+			if placeHold {
+				forceBG = true // the engine's goroutines stop at every lock site from here on (placement below)
+			}
 			s.SleepUntil(target)
 			// an engine goroutine woken by a timer inside the jump and parked at a
 			// lock site stayed there for the rest of it
@@ -464,7 +555,7 @@ func runC06(s *kernel.Sim) {
 			// place the rare state on purpose: let the processing loop run on, lock
 			// site by lock site, until it has a waiting request in its hands, and leave
 			// it there (the next clock step then prefers that request's expiry)
-			if bgYield && tp.Chance(1, 2) {
+			if placeHold {
 				for i := 0; i < 60; i++ {
 					inHands := false
 					for _, r := range waiting() {
@@ -481,6 +572,48 @@ func runC06(s *kernel.Sim) {
 					}
 					s.Resume(loop)
 				}
+				// and, half of the time, let a request of the same priority arrive and
+				// enter the queue while the loop still has that one in its hands
+				var held *c06req
+				for _, r := range waiting() {
+					if r.pushed && !r.inHeap {
+						held = r
+					}
+				}
+				if held != nil && len(order) < nArr && !cancelled && tp.Chance(1, 2) {
+					like = held
+					s.Sleep(time.Microsecond)
+					startArrival()
+					like = nil
+					nr := order[len(order)-1]
+					for i := 0; i < 60 && !nr.pushed && nr.task != nil && !nr.task.Done(); i++ {
+						s.Resume(nr.task)
+					}
+					s.Probe("arrival_while_loop_holds_a_request")
+					only := true
+					for _, r := range waiting() {
+						if r != held && r != nr && r.pushed {
+							only = false
+						}
+					}
+					if only {
+						s.Probe("arrival_while_loop_holds_the_only_waiting_request")
+						placedHeld = held
+					}
+					// then on, tick by tick with the engine's goroutines running freely, until
+					// one of the two has its verdict: who is served first?
+					if nr.pushed && tp.Chance(2, 3) {
+						forceBG = false
+						drainBG(false)
+						for k := 0; k < 80 && !held.granted && !nr.granted && !held.expired && !nr.expired && !s.Failed(); k++ {
+							advancing = true
+							s.Sleep(tick)
+							advancing = false
+							drainBG(false)
+						}
+					}
+				}
+				forceBG = false
 			}
 		}
 		quiescentChecks()
